@@ -102,11 +102,11 @@ func checkC01(c *Ctx) {
 		"(e) a match dispatches to the constructing case — constructor and case-label names are built by the same function; (f) every checked-in generated file type-checks with go/types (4 known findings among the samples)."
 	r.NotDecided = []string{"closures, inference interaction, evaluation results", "that emitted Go compiles for programs other than the shipped ones"}
 	r.Assumptions = []string{"Go evaluates call arguments, composite-literal elements and binary operands left to right; frt helpers as specified (C14)"}
-	r.Rule("C01.b", "never-reached type switches of fc are exhaustive", 40)
+	r.Rule("C01.b", "never-reached type switches of fc are exhaustive", 30)
 	r.Rule("C01.cde", "closed forms / emission templates of conditionals, operand order and match dispatch", 20)
 	r.Rule("C01.c", "run-time conditionals and short-circuit operators", 5)
 	r.Rule("C01.d", "no reordering primitive outside the frozen set; no operand inside an emitter-introduced closure", 3)
-	r.Rule("C01.n", "every generated compiler function still has the normal form that was reviewed (change detection for the functions no specification covers; a different form is undecided)", 400)
+	r.Rule("C01.n", "every generated compiler function still has the normal form that was reviewed (change detection for the functions no specification covers; a different form is undecided)", 330)
 	r.Rule("C01.m", "a binder's name in the AST is the name written in the source: it never depends on the parsed body", 6)
 	r.Rule("C01.f", "every checked-in generated file type-checks (go/types)", 20)
 	r.Rule("C01.j", "declaration, call and type emission have the documented closed forms / templates (the pins of C03.ab and C15.bcd: records, unions, constructors, funcs, vars, partial application, type printer — necessary for the emitted program to compile and to mean what the source says)", 40)
